@@ -65,7 +65,9 @@ TSigRet == /\ IsEvent("SigRet")
            /\ \E p \in pend : p.k = Ev.k /\ FRet(p) /\ Ev.ok = (p.st = "ok")
 TLin == \E p \in pend : FLin(p) /\ Silent
 TBEnd == /\ IsEvent("BEnd") /\ Ev.sess \in Sessions /\ BEnd(Ev.h, Ev.sess)
-TraceNext == TReset \/ TBStart \/ TSig \/ TFReply \/ TMsg \/ TFRecv \/ TBEnd \/ TSigCall \/ TSigRet \/ TLin
+\* a member dropped all its connections and dialled again: no part of the contract depends on connections
+TReconnect == IsEvent("Reconnect") /\ UNCHANGED vars
+TraceNext == TReconnect \/ TReset \/ TBStart \/ TSig \/ TFReply \/ TMsg \/ TFRecv \/ TBEnd \/ TSigCall \/ TSigRet \/ TLin
 TraceSpec == TraceInit /\ [][TraceNext]_tvars
 Mark == /\ CheckInv("AllSigned", AllSigned) /\ CheckInv("OnlyAllowed", OnlyAllowed)
         /\ CheckInv("AgreementRaw", AgreementRaw) /\ CheckInv("AgreementAccepted", AgreementAccepted)
